@@ -49,6 +49,7 @@ def run(repo, tier):
     r.rule("R15.3", "extra precision: __init__ stores the options backend_context applies; backend calls run inside backend_context", floor=5)
     r.rule("R15.5", "mpf2float's underflow/overflow results carry the sign: the negative arm is a float negative zero / negative infinity", floor=2)
     r.rule("R15.6", "mpf2float's underflow and overflow tests read the exponent and bit count of the value rounded to the target precision, on every path", floor=2)
+    r.rule("R15.9", "mpf2float rounds once: the precision of the rounding step depends on how many bits the format offers at the exponent of the value (subnormal results)", floor=1)
     r.rule("R15.8", "mpf2float thresholds derived per format and flush flag from the range tests as they are (operator, table, offsets): infinity exactly from exp + bc = emax + 2, zero up to half the smallest subnormal (no flush) or exactly below the smallest normal (flush)", floor=9)
     r.rule("R15.4", "mpf2float reads IEEE-correct exponent tables; zero is returned below a threshold, infinity above one", floor=13)
 
@@ -246,6 +247,7 @@ def run(repo, tier):
     r.ob("R15.4", f"{REL}::mpf2float range tests", ok, f"range tests are {sorted(v['text'] + ' (' + v['kind'] + ':' + v['dir'] + ')' for v in rtests.values())}: "
          "zero is returned below the zero threshold, infinity above float_maxexp", loc(REL, mf))
     check_thresholds_derived(r, repo, mf, rtests)
+    check_single_rounding(r, repo, mf)
     # ------------------------------------------------------------------ R15.7 wrapper caches
     # The numpy_with_* namespaces cache the vectorised wrapper they build with **self.params under a key: the key must determine
     # everything the wrapper is built from - the name and the whole of self.params - or a namespace with other options is handed
@@ -279,6 +281,54 @@ def run(repo, tier):
     if n_cache < 2:
         raise AnalysisError(f"only {n_cache} wrapper caches (_vfunc_cache stores) recognised in utils.py")
     return r
+
+
+def check_single_rounding(r, repo, mf, rule="R15.9"):
+    """A result below the smallest normal has fewer significant bits than p.  mpf2float rounds x with _normalize(..., prec, rnd)
+    and then places the mantissa with ldexp, which rounds again onto the subnormal grid: unless the precision handed to
+    _normalize is reduced by the distance of x's exponent to the bottom of the format, a subnormal result is rounded twice
+    (2.5000001 * smallest subnormal -> 2.5 -> 2 instead of 3).  Structural necessary condition: on the path without flushing,
+    some value that reaches the precision argument of _normalize depends on the exponent fields of x (x._mpf_) - or the
+    subnormal range is handled by a separate exact branch that reads them."""
+    calls = [c for c in ast.walk(mf) if isinstance(c, ast.Call) and (dotted(c.func) or "").endswith("_normalize")]
+    if len(calls) < 1:
+        raise AnalysisError("mpf2float: call of _normalize not found")
+    xname = mf.args.args[1].arg
+
+    def mentions_exponent(node, depth=0, seen=None):
+        seen = seen or set()
+        for n in ast.walk(node):
+            if isinstance(n, ast.Attribute) and n.attr == "_mpf_" and dotted(n.value) == xname:
+                return True
+            if isinstance(n, ast.Name) and n.id not in seen and depth < 6:
+                seen.add(n.id)
+                for st in ast.walk(mf):
+                    if isinstance(st, ast.Assign):
+                        for t in st.targets:
+                            names = [t] if isinstance(t, ast.Name) else list(t.elts) if isinstance(t, ast.Tuple) else []
+                            if any(isinstance(q, ast.Name) and q.id == n.id for q in names) and not (isinstance(st.value, ast.Call) and (dotted(st.value.func) or "").endswith("_normalize")):
+                                if mentions_exponent(st.value, depth + 1, seen):
+                                    return True
+        return False
+
+    ok = False
+    for c in calls:
+        # values that can reach the precision argument: a starred list whose element 0 is assigned, or a plain argument
+        prec_sources = []
+        for a in c.args:
+            if isinstance(a, ast.Starred) and isinstance(a.value, ast.Name) and dotted(a.value) != f"{xname}._mpf_":
+                lname = a.value.id
+                for st in ast.walk(mf):
+                    if isinstance(st, ast.Assign) and isinstance(st.targets[0], ast.Subscript) and dotted(st.targets[0].value) == lname \
+                            and isinstance(st.targets[0].slice, ast.Constant) and st.targets[0].slice.value == 0:
+                        prec_sources.append(st.value)
+            elif not isinstance(a, ast.Starred):
+                prec_sources.append(a)
+        if any(mentions_exponent(v) for v in prec_sources):
+            ok = True
+    r.ob(rule, f"{REL}::mpf2float subnormal results are rounded once", ok,
+         "the precision handed to _normalize never depends on the exponent of x: a value below the smallest normal is rounded to the full precision first and then "
+         "again by ldexp onto the subnormal grid (and everything between half the smallest subnormal and the smallest subnormal becomes zero)", loc(REL, calls[0]))
 
 
 class _RawField(Exception):
